@@ -125,6 +125,31 @@ def body(case):
         ok2 = False
     if not ok2:
         out.add("selection", "selection|second-document", f"{show(path,250)} after resolving {show(doc,120)}, on {show(doc2,150)}: got {show(g2,200)} expected {show(sel2,200)}")
+    # the same path put together with the `/` operator (path / path, path / part, key / path): it walks the same
+    # parts, so it reaches the same nodes; a path holding a list / map part answers with the list of ALL matches
+    # (whether a joined all-primitive path counts as concrete is not stated: either shape is accepted there)
+    if len(parts) >= 2 and not out.violations:
+        k = 1 + len(repr(parts)) % (len(parts) - 1)
+        Lp, Rp = parts[:k], parts[k:]
+        forms = [("path/path", lambda: ns.d.DataPath(*[build.build_part(x) for x in Lp]) / ns.d.DataPath(*[build.build_part(x) for x in Rp]))]
+        if len(Rp) == 1 and isinstance(Rp[0], Part):
+            forms.append(("path/part", lambda: ns.d.DataPath(*[build.build_part(x) for x in Lp]) / build.build_part(Rp[0])))
+        if len(Lp) == 1 and isinstance(Lp[0], Prim) and isinstance(Lp[0].v, str):
+            forms.append(("key/path", lambda: Lp[0].v / ns.d.DataPath(*[build.build_part(x) for x in Rp])))
+        for name, mk in forms:
+            try:
+                joined = mk()
+                gj = joined.get_data(doc, return_paths=True)
+            except Exception as e:
+                out.exc(f"no-raise|{name}", e)
+                continue
+            if isinstance(gj, list):
+                okj = norm_sel(gj) == norm_sel(sel)
+            else:
+                okj = conc and norm_sel([] if gj is None else [gj]) == norm_sel(sel)
+            if not okj:
+                out.add("selection", f"selection|{name}", f"{name}: {show(path,250)} on {show(doc,200)}: got {show(gj,200)} expected {show(sel,200)}")
+        out.label("joined-with-slash")
     return out
 
 
